@@ -198,3 +198,11 @@ Theorem C01_ref_valuations : forall c val d, respects val ->
   rden val c = den (fun i => val (nth i (keys_of c []) d)) (number (keys_of c []) c).
 Proof. exact ref_valuations. Qed.
 Print Assumptions C01_ref_valuations.
+(* The truth table the run enumerates (rows m < 2^n, bit i of m for predicate number i) is complete: every
+   valuation of the reference predicates is one of its rows. *)
+Theorem C01_ref_table_complete : forall c val, respects val ->
+  let ks := keys_of c [] in
+  exists m, In m (seq 0 (Nat.pow 2 (length ks))) /\
+    rden val c = den (fun a => N.testbit (N.of_nat m) (N.of_nat a)) (number ks c).
+Proof. exact ref_table_complete. Qed.
+Print Assumptions C01_ref_table_complete.
